@@ -397,7 +397,8 @@ let dump_doc (idx : Stdlib.String.t) (flags : Stdlib.String.t) (text : n list) (
       let (o, it') = sit_nth (n_of_int k) it in
       (match o with Some _ -> cnt := !cnt + int_of_n (sit_len it') | None -> ())
     done;
-    pr "%s OI %d\n" idx !cnt
+    (* plus four walks of one iterator from both ends over the whole document: n items each *)
+    pr "%s OI %d\n" idx (!cnt + 4 * n)
   end;
   if has 'g' then begin
     let (lines, _maxh) = get (debug_document d) in
